@@ -233,6 +233,9 @@ func runC07(x *core.Ctx) {
 			if k != env.KRaw && len(f.B) > 100_000 {
 				b = 2 // the wrapped readers over megabyte frames: one bound less
 			}
+			if k != env.KRaw && x.Thorough() && b > 2 {
+				b-- // thorough: the deepest bound on the scripted source itself, one less through the wrappers
+			}
 			c07Explore(x, f, ref, b, maxZero, stratum, k)
 		}
 	}
